@@ -7,8 +7,34 @@ package output
 // Interface contract (assumed for every implementation): wrapping allocates the per-command writers; the
 // returned closer flushes them into the shared streams.
 //@ fnspec closeFunc
-//@   modifies bytes.*, github.com/go-task/task/v3/internal/output.*
+//@   modifies bytes.*
 //@ func (Output).WrapWriter
 //@   trusted
 //@   pure allocates
 //@   result 2 fnspec closeFunc
+
+// ---- C17: grouped and prefixed output ------------------------------------------------------------------
+// nw: number of non-empty Write calls a group makes on the shared stream when it is flushed. One call is
+// atomic on the shared writer (assumed), so a block is contiguous iff it is written with a single call.
+//@ ghost var nw int scratch
+//@ ghost var closedGW bool scratch
+
+//@ func (*groupWriter).close
+//@   modifies bytes.*
+//@   init nw := 0
+//@   site io.WriteString#1 ghost nw := nw + (arg1 != "" ? 1 : 0)
+//@   site io.Copy#1 ghost nw := nw + 1
+//@   ensures nw <= 1                                         -- begin line, bytes and end line go out in ONE write     [C17]
+
+// With error_only the block appears iff the command failed; otherwise always.
+//@ func (Group).WrapWriter$1
+//@   init closedGW := false
+//@   site (*groupWriter).close#1 ghost closedGW := true
+//@   ensures closedGW == !(g.ErrorOnly && err == nil)                                                                  [C17]
+
+// Prefixed: every piece of one output line is written while holding the mutex shared by all commands.
+//@ func (*prefixWriter).writeLine
+//@   site fmt.Fprint#1 requires held(pw.prefixed.mutex)                                                                [C17,C18]
+//@   site (*Logger).FOutf#1 requires held(pw.prefixed.mutex) && arg1 == pw.writer                                      [C17,C18]
+//@   site fmt.Fprint#2 requires held(pw.prefixed.mutex)                                                                [C17,C18]
+//@   site fmt.Fprint#3 requires held(pw.prefixed.mutex)                                                                [C17,C18]
